@@ -6,6 +6,31 @@ V = os.path.dirname(os.path.dirname(os.path.abspath(__file__)))
 BASE_OFF = ("cd /repo && GOFLAGS=-mod=mod GOPROXY=off go test -json -vet=off -count=1 -timeout 25m ./... ")
 
 CHECKS = {
+ "C01": dict(
+   category="exploration",
+   text="Packet.tla: TLC checks the error-layer laws for every decoder script (exhaustive to the bound) and every exported script is replayed through the real NewPacket with scripted real Decoders (error / error-after-AddLayer / panic / NextDecoder(nil) ...); real decoders: fixtures x structural mutations x every registered first layer x 16 option sets, NewPacket and every read-only accessor under recover+watchdog; TLC validates the event stream (no Panic/Hang/Crash transition, error-layer laws).",
+   design_ref="4/C01", technique="TLA+ packet-builder model (TLC exhaustive) + scripted-decoder replay + TLC trace validation of sampled real decodes",
+   note="The byte-input space is sampled (seeded), not enumerated; the TLA+ side decides the builder state machine and the outcome alphabet only."),
+ "C03": dict(
+   category="model_checking",
+   text="Packet.tla: TLC proves LazyResult(a)=EagerResult(a) for every reachable lazy state of every script <= bound and exports (script, accessor program) behaviours; each is replayed on a real lazy and a real eager packet built from the same bytes and TLC validates the recorded answers; the same lazy-vs-eager comparison runs on real layer decoders over fixtures and mutations with random accessor programs.",
+   design_ref="4/C03", technique="TLA+ refinement-style invariant (TLC exhaustive) + behaviour replay + TLC trace validation",
+   note="Verdict = real lazy packet differs from real eager packet; scripted decoders follow the PacketBuilder contract; real inputs sampled."),
+ "C09": dict(
+   category="model_checking",
+   text="Reasm.tla is the property in functional form (Judge); ReasmGen.tla enumerates all scenarios in the bound (all segment intervals, SYN/FIN, FlushAll, age flushes) and checks an ideal assembler against Judge; every scenario is replayed on the real reassembly.Assembler under seeded configurations (page limits, KeepFrom policies, forced start, ISNs around the 32-bit wrap, multi-page segments) and TLC validates every delivery in stream offsets.",
+   design_ref="4/C09", technique="TLA+ property spec + TLC scenario enumeration + replay + TLC trace validation",
+   note="Positions are inferred from delivered content; conflicting retransmissions out of scope; small-scope exhaustive plus random."),
+ "C10": dict(
+   category="model_checking",
+   text="Same specification and scenario space as C09, replayed on the real tcpassembly.Assembler (one event per Reassembly); TLC validates order, exactly-once, skip values and their cause.",
+   design_ref="4/C10", technique="TLA+ property spec + TLC scenario enumeration + replay + TLC trace validation",
+   note="As C09."),
+ "C11": dict(
+   category="model_checking",
+   text="Lifecycle clauses of Reasm.tla (New/Complete exactly once, no data after completion, no pages / removable connections after FlushAll, page-limit bound, age-flush clauses) validated by TLC on traces of both real assemblers over the TLC-generated and random multi-connection scenarios, with read-only hook scalars logged after every API call.",
+   design_ref="4/C11", technique="TLA+ property spec + TLC scenario enumeration + replay + TLC trace validation (hooks: read-only accessors)",
+   note="Hook accessors (build tag verif) are trusted to report pageCache.used / pool size / queued pages faithfully."),
  "C18": dict(
    category="model_checking",
    text="SerializeBuffer.tla: TLC proves exhaustively (all op sequences to the bound) that the transcription of writer.go refines the abstract buffer; every exported behaviour is replayed on the real buffer and every real step is validated by TLC against the abstract layer (contents, returned-slice length, window position, layers).",
